@@ -7,6 +7,7 @@ such kind the detector must test the atom (for floating point) or reach the chil
 from ..front import AnalysisBroken
 from ..facts import walk, calls, short
 from .effects import switch_cases, write_kinds
+from ..inline import KindSlicer
 
 ATOMS = ["LT", "LE", "GE", "GT", "EQ"]
 CONNECTIVES = ["AND", "OR", "FORALL"]
@@ -80,18 +81,17 @@ def run(chk, F, G_):
                             out |= ({0, 1} if i == "loop" else {i})
         return out
 
+    # what visitGuard does *for each kind*: switch cases, if-chains, kind predicates, early returns and helpers
+    # (file-local functions, lambdas) are followed by the slicer
+    stop = ("visitGuard", "visitAssignment", "visitLocation", "visitEdge", "isRateDisallowedInSymbolic")
+    vgs = KindSlicer(F, vg, stop=stop)
     tested = set()
     both = True
-    groups = []
-    try:
-        groups = switch_cases(vg)
-    except AnalysisBroken:
-        groups = []
-    for labels, stmts in groups:
-        t = fp_tested_children({"k": "block", "s": stmts})
+    for k in ATOMS:
+        t = fp_tested_children(vgs.slice(k))
         if t:
-            tested.update(labels)
-            if set(labels) & set(ATOMS) and t != {0, 1}:
+            tested.add(k)
+            if t != {0, 1}:
                 both = False
     for k in ATOMS:
         chk.ob(rid, "guard-atom|%s" % k, k in tested,
@@ -102,7 +102,7 @@ def run(chk, F, G_):
     chk.ob(rid, "guard-atom|both-operands", both and bool(tested),
            "visitGuard tests only one operand of a comparison for floating point: `1.5 < x` (bound on the left) leaves "
            "symbolic analysis reported as supported", "%s:%s" % (vg["file"], vg["line"]))
-    descended, _ = case_labels_with(vg, lambda b: reaches_children(vg, b))
+    descended = {k for k in CONNECTIVES if reaches_children(vg, vgs.slice(k))}
     for k in CONNECTIVES:
         chk.ob(rid, "guard-connective|%s" % k, k in descended,
                "FeatureChecker::visitGuard does not descend into %s: a floating-point comparison in one conjunct "
@@ -141,17 +141,14 @@ def run(chk, F, G_):
            "a rate of an ordinary clock in the same invariant (`h' == 3 && x' == 2`) is never looked at and symbolic "
            "analysis stays reported as supported" % "`, `".join(early), "%s:%s" % (vl["file"], vl["line"]))
     rd = F.fn(FC + "::isRateDisallowedInSymbolic")
-    rec_and = False
-    for n in walk(rd["body"]):
-        if n.get("k") == "if" and "AND" in short(n["c"]) and any(c.get("name") == "isRateDisallowedInSymbolic"
-                                                               for c in calls(n["then"])):
-            rec_and = True
+    rec_and = reaches_children(rd, KindSlicer(F, rd, stop=stop).slice("AND"))
     chk.ob(rid, "invariant|rates-under-AND", rec_and, "isRateDisallowedInSymbolic does not descend into conjunctions",
            "%s:%s" % (rd["file"], rd["line"]))
     # assignments
     va = F.fn(FC + "::visitAssignment")
     akinds, incdec = write_kinds(F, G_)
-    handled, agroups = case_labels_with(va, lambda b: any(c.get("name") == "uses_fp" for c in calls(b)))
+    vas = KindSlicer(F, va, stop=stop)
+    handled = {k for k in sorted(akinds | {"ASSIGN"}) if any(c.get("name") == "uses_fp" for c in calls(vas.slice(k)))}
     # only plain assignment can carry a floating-point value: the type checker demands integral operands for every
     # compound assignment and for ++/-- (checked by C12's R-WRITEKINDS table), so those kinds are not armed here
     chk.ob(rid, "update|ASSIGN", "ASSIGN" in handled,
@@ -161,9 +158,9 @@ def run(chk, F, G_):
     if ignored:
         chk.note("visitAssignment ignores the compound assignments %s: `i += (d < 1.5)` keeps symbolic=true while "
                  "`i = i + (d < 1.5)` does not; not armed - the assigned value itself is integral" % ignored)
-    comma, _ = case_labels_with(va, lambda b: any(c.get("name") == "visitAssignment" for c in calls(b)) and
-                                any(n.get("k") in ("for", "rangefor") for n in walk(b)))
-    chk.ob(rid, "update|COMMA-all-elements", "COMMA" in comma,
+    cb = vas.slice("COMMA")
+    comma = any(n.get("k") in ("for", "rangefor", "while") and reaches_children(va, n.get("body") or {}) for n in walk(cb))
+    chk.ob(rid, "update|COMMA-all-elements", comma,
            "visitAssignment does not inspect every element of an update list", "%s:%s" % (va["file"], va["line"]))
     ve = F.fn(FC + "::visitEdge")
     names = {c.get("name") for c in calls(ve["body"])}
